@@ -766,9 +766,35 @@ def gen_runs(ctx):
         ld = LoggedDoc(log_before)
 
 
+def regenerate(ctx):
+  """coq/gen/Rollback_gen.v from engine.py / docactions.py / action_obj.py / action_summary.py (harness/rb2v.py)."""
+  from harness import rb2v
+  ctx._rb2v_info = rb2v.regenerate(ctx)
+
+
+def validate_translation(ctx):
+  """Differential validation of harness/rb2v.py: generated definitions (vm_compute) vs the running functions."""
+  from harness import rb2v
+  info = getattr(ctx, '_rb2v_info', None)
+  if info is None:
+    return
+  cases, descs = rb2v.checkpoint_cases(ctx.rng, ctx.n(60, 600))
+  bad = ctx.run_cases('rb2v_checkpoint', ['Grist.Lib.RbPrelude', 'GristGen.Rollback_gen'], rb2v.VALIDATE_CHECK, cases,
+                      shard=300, extra_defs=rb2v.VALIDATE_DEFS, timeout=300)
+  for i in bad[:5]:
+    ctx.broken('translation:harness/rb2v.py output differs from the running Engine._undo_to_checkpoint', descs[i])
+  obad = rb2v.order_mismatches(info, run_bundle, LoggedDoc)
+  for b in obad:
+    ctx.broken('translation:harness/rb2v.py effect order differs from the instrumented engine', b)
+  ctx.extra['rb2v_validation'] = {'checkpoint_cases': len(cases), 'checkpoint_mismatches': len(bad),
+                                  'order_probes': 4, 'order_mismatches': len(obad)}
+  ctx.log('rb2v: %d checkpoint cases (%d mismatches), 4 order probes (%d mismatches)' % (len(cases), len(bad), len(obad)))
+
+
 def correspond(ctx):
   """Tie: for real doc actions, recorded order of instrumented calls == the model's micro-step list, tables after ==
   model state after, undo actions appended == model's."""
+  validate_translation(ctx)
   tc = TieCollector(ctx.n(10, 120))
   ctx._c04_runs = []
   hooks = tc.hooks()
